@@ -10,7 +10,7 @@ mod verif_c18_pb {
     use crate::style::verif_rig_style::*;
     use crate::verif_common::*;
 
-    // @harness id=C18 tier=thorough timeout=3400 mem=20 checks=rust
+    // @harness id=C18 tier=deep timeout=3400 mem=20 checks=rust
     // @bounds ProgressBar::set_tab_width(3) while the draw it triggers fails: no panic, the lock is not poisoned (a following position() works)
     #[kani::proof]
     #[kani::unwind(6)]
